@@ -268,6 +268,27 @@ func c16Run(c c16Case) (viol [][2]string) {
 			}
 		}
 	}
+	// 4. the limits count what is alive: once this host and its receiver are gone (and any
+	// per-minute budget of a small setting has refilled) the next host is served like the first
+	recv.conn.Close()
+	host.conn.Close()
+	vrt.Sleep(lifeSettle)
+	vrt.Sleep(61 * time.Second)
+	id2, code2, _, err := clienthttp.CreateSession(context.Background(), serverURL, c.ClientMaxRx)
+	if err != nil || id2 == "" || code2 == "" {
+		bad("second-host-cannot-create-session", "after the first host and its receiver left, clienthttp.CreateSession: id=%q code=%q err=%v", id2, code2, err)
+		return
+	}
+	if code2 == code {
+		bad("second-host-cannot-create-session", "the second session got the join code of the first (%q)", code)
+	}
+	code = code2
+	if h2 := connectAs(c.HostID, "sender", c.ClientMaxRx); h2 != nil {
+		if r2 := connectAs(c.RecvID, "receiver", 0); r2 != nil {
+			r2.conn.Close()
+		}
+		h2.conn.Close()
+	}
 	return
 }
 
